@@ -20,18 +20,32 @@ scheduler `harness/sched.py` blocks the real code at exactly these points:
   link1     the linker has created the `.so` but not finished writing it
   link2     the linker has finished
   unredir   `redirect_stdout.__exit__` on the normal path
-  mark      `open(ready_name, "x")`, write, close
+  markCreate  `fd = open(ready_name, "x")`  (the marker file EXISTS from here on, still empty)
+  markWrite   `fd.write(s)`; `fd.close()`   (either may raise: ENOSPC, EIO, ...)
+  markRemove  `os.remove(ready_name)` in the `except BaseException` around write/close, then re-raise
   restore   `root_logger.handlers = old_handlers`
   release   `os.replace(c_filename, c_filename.with_suffix(".c.failed"))` in the
             `except Exception` block of compile_forms (errors swallowed)
 
-The model mirrors the code AS IT IS (after /repo commit 9fb79f1): everything from
+The model mirrors the code AS IT IS (after /repo commits 9fb79f1 and 5b3dabc): everything from
 `ffibuilder.compile` to the creation of the ready marker is inside
 `try: ... finally: root_logger.handlers = old_handlers`.  When `ffibuilder.compile` raises, the
 `with redirect_stdout` block restores `sys.stdout` (silently, no gate), then the `finally` block
 restores the handlers (op `restore`, control state `bFailRestore`), then the exception reaches the
-`except` block of compile_forms (op `release`).  The same holds when `open(ready_name,"x")` raises.
+`except` block of compile_forms (op `release`).  The same holds when `open(ready_name,"x")` raises
+(`FileExistsError`, or any other `OSError`: choice `fail`) and when `fd.write`/`fd.close` raises
+(choice `fail` at `markWrite`): in the last case the marker file has already been created; since
+/repo commit 5b3dabc the handler around write/close removes it again (op `markRemove`, control state
+`bMarkRemove`) before the exception travels on to `restore` and `release`.  Between `markCreate` and
+`markRemove` the marker is visible to waiters (with the lock in place and a complete `.so`); a waiter
+whose poll falls into that window goes on to `find`/`load` whatever happens to the directory
+afterwards (the model mirrors the code).
 A failure of code generation happens before the swap and goes to `release` directly.
+
+`compile_forms` and `compile_expressions` are the same protocol: both call `get_cached_module`, then
+`_compile_objects` inside the same `try/except: os.replace(.c -> .c.failed); raise`, then
+`_load_objects`; they differ only in the module-name prefix and the cffi declarations.  One
+transition system models both (harness/props/c14.py and c15.py drive both through the scheduler).
 
 A process may issue a further request after its previous one has returned or raised (choice
 `again`): its process-global state is whatever the previous request left behind.
@@ -55,6 +69,9 @@ structure FS where
   obj : Bool := false      -- `<module>.o`
   marker : Bool := false   -- `<module>.c.cached`
   failed : Bool := false   -- `<module>.c.failed`
+  /-- identity of the current `.so` file: how often the linker has (re)created it (it unlinks and
+  re-creates the output file).  The module token handed to whoever imports the file. -/
+  gen : Nat := 0
   deriving DecidableEq, Repr, Inhabited
 
 /-- A value of a piece of process-global state: what the user had, or the capture buffer
@@ -74,6 +91,8 @@ inductive Cause where
   | gen       -- `compile_ufl_objects` raised (before the handlers are swapped)
   | compile   -- `ffibuilder.compile` raised (inside `with redirect_stdout`)
   | marker    -- `open(ready_name, "x")` raised FileExistsError
+  | markOpen  -- `open(ready_name, "x")` raised something else (nothing was created)
+  | markWrite -- `fd.write(s)` / `fd.close()` raised: the marker file exists
   deriving DecidableEq, Repr, Inhabited
 
 inductive Err where
@@ -87,7 +106,9 @@ inductive Pc where
   | idle                       -- not yet arrived; next op: lock
   | wPoll (i : Nat)            -- waiter, `i` unsuccessful polls so far; next op: poll
   | wFind | wLoad
-  | bGen | bSwap | bSrc | bObj | bLink1 | bLink2 | bUnredir | bMark | bRestore | bFind | bLoad
+  | bGen | bSwap | bSrc | bObj | bLink1 | bLink2 | bUnredir | bMarkCreate | bMarkWrite | bMarkRemove
+  | bRestore | bFind
+  | bLoad
   | bFailRestore (c : Cause)   -- exception inside the `try` of `_compile_objects`; next op: restore
   | bFail (c : Cause)          -- in the `except` block of compile_forms; next op: release
   | done (built : Bool) (so : So)  -- returned; `so` = state of the file that was imported
@@ -102,8 +123,8 @@ inductive Choice where
   deriving DecidableEq, Repr, Inhabited
 
 inductive Op where
-  | lock | poll | find | load | gen | swap | src | obj | link1 | link2 | unredir | mark | restore
-  | release | kill | again | none
+  | lock | poll | find | load | gen | swap | src | obj | link1 | link2 | unredir | markCreate | markWrite | markRemove
+  | restore   | release | kill | again | none
   deriving DecidableEq, Repr, Inhabited
 
 inductive Res where
@@ -123,6 +144,8 @@ structure Proc where
   saved : Glob := {}
   /-- ghost: number of unsuccessful polls performed -/
   polls : Nat := 0
+  /-- module token: `FS.gen` of the `.so` file imported by the last `load` step of this process -/
+  tok : Nat := 0
   deriving DecidableEq, Repr, Inhabited
 
 structure Sys where
@@ -142,13 +165,14 @@ def Pc.terminal : Pc → Bool
 /-- The process is inside the lock epoch it created (between a successful `lock` and its return,
 release or death). -/
 def Pc.isB : Pc → Bool
-  | .bGen | .bSwap | .bSrc | .bObj | .bLink1 | .bLink2 | .bUnredir | .bMark | .bRestore | .bFind
-  | .bLoad | .bFailRestore _ | .bFail _ => true
+  | .bGen | .bSwap | .bSrc | .bObj | .bLink1 | .bLink2 | .bUnredir | .bMarkCreate | .bMarkWrite | .bMarkRemove
+  | .bRestore | .bFind | .bLoad | .bFailRestore _ | .bFail _ => true
   | _ => false
 
-/-- Builder states before the marker has been written. -/
+/-- Builder states in which no marker of this request exists: before its creation, and on the way
+to the `except` block (after a failing write/close the marker has been removed again). -/
 def Pc.isPre : Pc → Bool
-  | .bGen | .bSwap | .bSrc | .bObj | .bLink1 | .bLink2 | .bUnredir | .bMark | .bFailRestore _
+  | .bGen | .bSwap | .bSrc | .bObj | .bLink1 | .bLink2 | .bUnredir | .bMarkCreate | .bFailRestore _
   | .bFail _ => true
   | _ => false
 
@@ -167,6 +191,10 @@ in the `finally` block that restores the handlers. -/
 def Proc.compileRaises (p : Proc) : Proc :=
   { p with pc := .bFailRestore .compile, g := { p.g with stdout := p.saved.stdout } }
 
+/-- An exception between `ffibuilder.compile` and the end of the `try` block of `_compile_objects`
+(`sys.stdout` is already restored): the request is now in the `finally` block. -/
+def Proc.markRaises (p : Proc) (c : Cause) : Proc := { p with pc := .bFailRestore c }
+
 /-- The next operation of a live (not terminal, not killed) request whose control state is the
 last argument (`p.pc`); `c = .fail` makes a fallible operation raise. -/
 def stepLive (timeout : Nat) (fs : FS) (p : Proc) (c : Choice) : Pc → FS × Proc × Obs
@@ -181,7 +209,7 @@ def stepLive (timeout : Nat) (fs : FS) (p : Proc) (c : Choice) : Pc → FS × Pr
   | .wFind =>
     if fs.so = .absent then (fs, { p with pc := .raised .notFound }, ⟨.find, .notfound⟩)
     else (fs, { p with pc := .wLoad }, ⟨.find, .found⟩)
-  | .wLoad => (fs, { p with pc := .done false fs.so }, ⟨.load, .so fs.so⟩)
+  | .wLoad => (fs, { p with pc := .done false fs.so, tok := fs.gen }, ⟨.load, .so fs.so⟩)
   | .bGen =>
     if c = .fail then (fs, { p with pc := .bFail .gen }, ⟨.gen, .raise⟩)
     else (fs, { p with pc := .bSwap }, ⟨.gen, .ok⟩)
@@ -194,19 +222,27 @@ def stepLive (timeout : Nat) (fs : FS) (p : Proc) (c : Choice) : Pc → FS × Pr
     else ({ fs with obj := true }, { p with pc := .bLink1 }, ⟨.obj, .ok⟩)
   | .bLink1 =>
     if c = .fail then (fs, p.compileRaises, ⟨.link1, .raise⟩)
-    else ({ fs with so := .part }, { p with pc := .bLink2 }, ⟨.link1, .ok⟩)
+    else ({ fs with so := .part, gen := fs.gen + 1 }, { p with pc := .bLink2 }, ⟨.link1, .ok⟩)
   | .bLink2 =>
     if c = .fail then (fs, p.compileRaises, ⟨.link2, .raise⟩)
     else ({ fs with so := .complete }, { p with pc := .bUnredir }, ⟨.link2, .ok⟩)
-  | .bUnredir => (fs, { p with pc := .bMark, g := { p.g with stdout := p.saved.stdout } }, ⟨.unredir, .unit⟩)
-  | .bMark =>
-    if fs.marker then (fs, { p with pc := .bFailRestore .marker }, ⟨.mark, .exists_⟩)
-    else ({ fs with marker := true }, { p with pc := .bRestore }, ⟨.mark, .ok⟩)
+  | .bUnredir =>
+    (fs, { p with pc := .bMarkCreate, g := { p.g with stdout := p.saved.stdout } }, ⟨.unredir, .unit⟩)
+  | .bMarkCreate =>
+    if c = .fail then (fs, p.markRaises .markOpen, ⟨.markCreate, .raise⟩)
+    else if fs.marker then (fs, p.markRaises .marker, ⟨.markCreate, .exists_⟩)
+    else ({ fs with marker := true }, { p with pc := .bMarkWrite }, ⟨.markCreate, .ok⟩)
+  | .bMarkWrite =>
+    -- the marker file exists (created by this request); a failing write/close enters the handler that removes it
+    if c = .fail then (fs, { p with pc := .bMarkRemove }, ⟨.markWrite, .raise⟩)
+    else (fs, { p with pc := .bRestore }, ⟨.markWrite, .ok⟩)
+  | .bMarkRemove =>
+    ({ fs with marker := false }, p.markRaises .markWrite, ⟨.markRemove, .ok⟩)
   | .bRestore => (fs, { p with pc := .bFind, g := { p.g with handlers := p.saved.handlers } }, ⟨.restore, .unit⟩)
   | .bFind =>
     if fs.so = .absent then (fs, { p with pc := .raised .notFound }, ⟨.find, .notfound⟩)
     else (fs, { p with pc := .bLoad }, ⟨.find, .found⟩)
-  | .bLoad => (fs, { p with pc := .done true fs.so }, ⟨.load, .so fs.so⟩)
+  | .bLoad => (fs, { p with pc := .done true fs.so, tok := fs.gen }, ⟨.load, .so fs.so⟩)
   | .bFailRestore cause =>
     (fs, { p with pc := .bFail cause, g := { p.g with handlers := p.saved.handlers } }, ⟨.restore, .unit⟩)
   | .bFail cause =>
@@ -268,6 +304,19 @@ inductive Reach : Sys → Prop where
   | init (n timeout : Nat) : Reach (init n timeout)
   | step {s : Sys} (pid : Nat) (c : Choice) : Reach s → Reach (step s pid c)
 
+/-- Reachable with a fault-free marker write: every interleaving, every fail/kill/again choice,
+except that `fd.write(s)`/`fd.close()` on the freshly created marker never raises (so that a marker,
+once visible, is never withdrawn). -/
+inductive ReachW : Sys → Prop where
+  | init (n timeout : Nat) : ReachW (init n timeout)
+  | step {s : Sys} (pid : Nat) (c : Choice) :
+      ReachW s → obs s pid c ≠ ⟨.markWrite, .raise⟩ → ReachW (step s pid c)
+
+/-- No step of the schedule (run from `s`) is a failing `fd.write`/`fd.close` of the marker. -/
+def NoMWFail (s : Sys) : List (Nat × Choice) → Prop
+  | [] => True
+  | (pid, c) :: rest => obs s pid c ≠ ⟨.markWrite, .raise⟩ ∧ NoMWFail (step s pid c) rest
+
 /-- Reachable without failures or kills. -/
 inductive ReachNF : Sys → Prop where
   | init (n timeout : Nat) : ReachNF (init n timeout)
@@ -275,12 +324,12 @@ inductive ReachNF : Sys → Prop where
 
 /-- Upper bound on the number of effective steps a request can still take. -/
 def fuel (timeout : Nat) : Pc → Nat
-  | .idle => timeout + 13
+  | .idle => timeout + 14
   | .wPoll i => (timeout - i) + 3
   | .wFind => 2
   | .wLoad => 1
-  | .bGen => 12 | .bSwap => 11 | .bSrc => 10 | .bObj => 9 | .bLink1 => 8 | .bLink2 => 7
-  | .bUnredir => 6 | .bMark => 5 | .bRestore => 4 | .bFind => 3 | .bLoad => 2
+  | .bGen => 13 | .bSwap => 12 | .bSrc => 11 | .bObj => 10 | .bLink1 => 9 | .bLink2 => 8
+  | .bUnredir => 7 | .bMarkCreate => 6 | .bMarkWrite => 5 | .bMarkRemove => 3 | .bRestore => 4 | .bFind => 3 | .bLoad => 2
   | .bFailRestore _ => 2
   | .bFail _ => 1
   | .done _ _ | .raised _ | .dead => 0
